@@ -80,16 +80,25 @@ def check_runs(runs, w, obs):
     kinds = set()
     tags = set()
     trailing = False
+    quirk = None
     for terminal, events, tg in runs:
+        q = [t for t in tg if t.startswith("quirk:")]
         m = match(obs, terminal, events, w)
         if m is None:
-            return None
+            if not q:
+                return None
+            quirk = quirk or q[0][6:]
+            continue
+        if q:
+            continue
         tags |= tg
         kinds.add(m[0])
         if terminal[0] == "done" and terminal[5] and terminal[2] < len(w) and not terminal[4]:
             trailing = True
         if why is None:
             why = m[1]
+    if quirk:
+        return {"known"}, f"the parser behaves as described by finding {quirk}, which the reading does not allow ({why})", {"quirk:" + quirk}
     if trailing:
         # the program is complete after k bytes and byte k cannot continue it.  Whether that byte is then simply left unread (DONE)
         # or is a mismatch of a parser that expected the input to stop there is not settled by the statement: not decided here.
